@@ -1,4 +1,5 @@
 import FuModel.Proofs.XargsReplace
+import FuModel.Proofs.XargsReplaceMain
 
 /-!
 C20: replace mode (`-I R`, `-i`, `--replace`).  One command per input line, R replaced by
@@ -193,5 +194,33 @@ example : xargsMain [.repl none] [[101], [123, 125]] [] [.exit 1] 100000 = ⟨0,
 example :
     xargsMain [.replI [37]] [[101], [37]] [49, 10, 50, 10] [.exit 1] 100000
     = ⟨123, [[[101], [49]], [[101], [50]]]⟩ := by decide
+
+/-- **-s in replace mode.**  Every command `xargs -I R -s S CMD …` starts has at most S characters
+    after substitution, counting every word with its terminator - however many occurrences of R
+    were replaced. -/
+theorem C20_max_chars (opts : List Opt) (cmd : List (List UInt8)) (input : List UInt8)
+    (script : List Outcome) (sys : Nat) (R : List UInt8) (hR : (normalize opts).replace = some R)
+    (S : Nat) (hS : sOptOf opts = some S) :
+    ∀ av ∈ (xargsMain opts cmd input script sys).argvs, (av.map (fun a => cost a)).sum ≤ S := by
+  obtain ⟨lim, _, _, _, hs, h⟩ := main_replace_fits opts cmd input script sys R hR
+  intro av hav
+  obtain ⟨b, rfl, hb⟩ := h av hav
+  unfold substFits at hb
+  obtain ⟨init, hinit⟩ := Option.isSome_iff_exists.mp hb
+  have := initState_s lim LState.zero init _ S (hs.trans hS) hinit (Nat.zero_le _)
+  have h1 := this.1
+  have h2 := this.2
+  simp only [LState.zero, Nat.zero_add] at h1
+  omega
+
+/-- the statement on a concrete run: `printf 'dogu\nab\n' | xargs -I{} -s 17 cmd {}{} {}` - the first
+    line would give 3+1 + 8+1 + 4+1 = 18 characters: nothing is run, status 1; with `-s 18` it runs,
+    and the second line too -/
+example :
+    xargsMain [.replI [123, 125], .s 17] [[99, 109, 100], [123, 125, 123, 125], [123, 125]] [100, 111, 103, 117, 10, 97, 98, 10] [] 2091065
+      = ⟨1, []⟩ ∧
+    (xargsMain [.replI [123, 125], .s 18] [[99, 109, 100], [123, 125, 123, 125], [123, 125]] [100, 111, 103, 117, 10, 97, 98, 10] [] 2091065).argvs
+      = [[[99, 109, 100], [100, 111, 103, 117, 100, 111, 103, 117], [100, 111, 103, 117]], [[99, 109, 100], [97, 98, 97, 98], [97, 98]]] := by
+  decide +kernel
 
 end FuModel.Xargs
